@@ -379,6 +379,12 @@ func main() {
 				c = append(c, explore.Config{Name: "mid " + f, MaxDepth: d2, MaxDev: -1})
 				c = append(c, explore.Config{Name: "full " + f, MaxDepth: d3, MaxDev: -1})
 			}
+			ad := 3
+			if th {
+				ad = 4
+			}
+			c = append(c, explore.Config{Name: "audit(no dedup) gap tree", BuildName: "gap tree", MaxDepth: ad + 1, MaxDev: -1, NoDedup: true})
+			c = append(c, explore.Config{Name: "audit(no dedup) chain ht2", BuildName: "chain ht2", MaxDepth: ad, MaxDev: -1, NoDedup: true})
 			return c
 		},
 		Budget: func(th bool) time.Duration {
